@@ -28,23 +28,28 @@ def parseScript (s : String) : List Act :=
     | ["emit", h, x] => match h.toNat?, x.toInt? with
       | some h, some x => some (Act.emit h x)
       | _, _ => none
+    | ["emitdec", h] => h.toNat?.map Act.emitDec
     | _ => none
 
 def cancels (kind : Nat) (sc : List Act) : Bool := kind == 3 && sc.contains Act.cancel
 
-/-- emit actions a listener executes (those before its first effective `cancel`) -/
-def emitsOf (kind : Nat) : List Act → List Nat
-  | [] => []
-  | .cancel :: r => if kind == 3 then [] else emitsOf kind r
-  | .emit h _ :: r => h :: emitsOf kind r
-  | _ :: r => emitsOf kind r
+/-- number of emissions (to existing handlers) a listener performs when called with payload `x`:
+those before its first effective `cancel`; an `emitDec` only counts while the payload, as changed
+by the script so far on a mutable handler, is positive -/
+def emitCount (kind nh : Nat) : List Act → Int → Nat
+  | [], _ => 0
+  | .cancel :: r, x => if kind == 3 then 0 else emitCount kind nh r x
+  | .mutate k :: r, x => emitCount kind nh r (if kind == 2 then x + k else x)
+  | .emit h _ :: r, x => (if h < nh then 1 else 0) + emitCount kind nh r x
+  | .emitDec h :: r, x => (if x > 0 && h < nh then 1 else 0) + emitCount kind nh r x
 
 def mutSum (sc : List Act) : Int := sc.foldl (fun a act => match act with | .mutate k => a + k | _ => a) 0
 
 def checkEmit (a : Acc) (h : Nat) (x : Int) (obs : List Rec) : Option String := Id.run do
   let kind := a.kinds.getD h 0
   let mine := a.subs.filter (·.h == h)
-  let calls := obs.filter fun r => r.name == "call" && r.nat "h" == h
+  -- the listeners of THIS emission (depth 0); re-entrant emissions on the same handler are deeper
+  let calls := obs.filter fun r => r.name == "call" && r.nat "h" == h && r.nat "d" == 0
   let lids := calls.map (·.nat "lid")
   -- exactly once
   if lids.eraseDups.length != lids.length then return some "a listener was called more than once by one emission"
@@ -75,10 +80,10 @@ def checkEmit (a : Acc) (h : Nat) (x : Int) (obs : List Rec) : Option String := 
   let allCalls := obs.filter (·.name == "call")
   let nested := allCalls.foldl (fun n r =>
     match a.subs.find? (fun s => s.lid == r.nat "lid") with
-    | some s => n + ((emitsOf (a.kinds.getD s.h 0) s.script).filter (· < a.kinds.length)).length
+    | some s => n + emitCount (a.kinds.getD s.h 0) a.kinds.length s.script (r.int "x")
     | none => n) 0
   if logs.length != 1 + nested then return some s!"{logs.length} log entries for {1 + nested} emissions"
-  match (obs.filter (fun r => r.name == "log" || r.name == "call")).getLast? with
+  match (obs.filter (fun r => (r.name == "log" || r.name == "call"))).getLast? with
   | some r =>
     if !(r.name == "log" && r.nat "h" == h) then return some "the emission was not logged after its listeners had run"
     if r.int "x" != seen then return some "logged payload is not the payload after all listeners"
